@@ -868,6 +868,48 @@ static void do_repmat(CMR* cmr)
   CMRgraphFree(cmr, &g);
 }
 
+/* ---------- C09: Camion signing ---------- */
+
+/* case: M   record: see CamionModel.judge_camion */
+static void do_camion(CMR* cmr)
+{
+  CMR_CHRMAT* M = read_chrmat(cmr);
+  rec_begin();
+  o_chr_dense(M);
+  unsigned char v = 2;
+  CMR_SUBMAT* viol = NULL;
+  CMR_ERROR rc = CMRcamionTestSigns(cmr, M, (bool*) &v, &viol, NULL, DBL_MAX);
+  oi(rc); oi(v); o_opt_submat(rc ? NULL : viol);
+  if (viol)
+    CMRsubmatFree(cmr, &viol);
+  CMR_CHRMAT* S = NULL;
+  CMRchrmatCopy(cmr, M, &S);
+  unsigned char was = 2;
+  rc = CMRcamionComputeSigns(cmr, S, (bool*) &was, &viol, NULL, DBL_MAX);
+  oi(rc); oi(was);
+  oi(rc ? 0 : 1);
+  if (!rc)
+    o_chr_csr(S);
+  o_opt_submat(rc ? NULL : viol);
+  if (viol)
+    CMRsubmatFree(cmr, &viol);
+  unsigned char v2 = 2;
+  rc = CMRcamionTestSigns(cmr, S, (bool*) &v2, NULL, NULL, DBL_MAX);
+  oi(rc); oi(v2);
+  CMR_CHRMAT* S2 = NULL;
+  CMRchrmatCopy(cmr, S, &S2);
+  unsigned char was2 = 2;
+  rc = CMRcamionComputeSigns(cmr, S2, (bool*) &was2, NULL, NULL, DBL_MAX);
+  oi(rc); oi(was2);
+  oi(rc ? 0 : 1);
+  if (!rc)
+    o_chr_csr(S2);
+  rec_end();
+  CMRchrmatFree(cmr, &S2);
+  CMRchrmatFree(cmr, &S);
+  CMRchrmatFree(cmr, &M);
+}
+
 /* ---------- dispatch ---------- */
 
 typedef void (*handler)(CMR*);
@@ -887,6 +929,7 @@ static struct
   {"graphic", do_graphic},
   {"network", do_network},
   {"repmat", do_repmat},
+  {"camion", do_camion},
   {NULL, NULL}
 };
 
